@@ -295,6 +295,7 @@ def compare(env, frame_el, table, m, wit, tag=""):
             n["readings_through_earlier_proxies"] += 1
             if got != exp:
                 v("reading:stale-proxy", "cell (%d,%d) [%s] read through a proxy obtained earlier: %r, model %r" % (i, j, role, got, exp))
+    cache.clear()  # one slot: the table looked at last (the exhaustive part walks millions of tables)
     cache[id(frame_el)] = (frame_el, cells)
     ws, hs, cx, cy = sizes(frame_el)
     for key, got, want in (("col-width", ws, m.widths), ("row-height", hs, m.heights), ("frame-size:width", cx, m.frame_w), ("frame-size:height", cy, m.frame_h)):
@@ -641,6 +642,18 @@ def run_insert_table(env, only=None):
             if (off.get("x"), off.get("y")) != ("101", "202"):
                 acc.violation("insert_table-position", "frame at (%s,%s), placeholder at (101,202)" % (off.get("x"), off.get("y")), wit)
             compare(env, el, gf.table, m, wit)
+            # the table made from a placeholder is a table like any other: a few sizes, merges and splits on it
+            from vlib import env as venv
+
+            rnd = venv.rng(ID, "insert_table", r, c)
+            ops = []
+            wit2 = dict(wit, ops=ops)
+            for step in range(5):
+                ops.append(random_op(rnd, m, "resize-heavy", step))
+                res = apply_op(env, gf.table, el, m, ops[-1], dict(wit2, ops=list(ops)))
+                if res is ABORT or not compare(env, el, gf.table, m, dict(wit2, ops=list(ops)), tag="placeholder-table:"):
+                    break
+            env.n["ops_on_tables_made_by_insert_table"] += len(ops)
             ratios.add(cy / r)
             if cy % r or len(ratios) > 1:
                 acc.violation("insert_table-height-not-proportional", "frame height %d for %d rows (height/rows seen: %s)" % (cy, r, sorted(ratios)), wit)
